@@ -35,6 +35,7 @@ fn src4(c: &str) -> [u8; 4] {
 fn dst4(c: &str) -> [u8; 4] {
     match c {
         "own" => [10, 0, 0, 1],
+        "own2" => [10, 0, 0, 2],
         "other-on" => [10, 0, 0, 77],
         "other-off" => [192, 168, 1, 1],
         "net-bcast" => [10, 0, 0, 255],
@@ -57,6 +58,7 @@ fn src6(c: &str) -> [u8; 16] {
 fn dst6(c: &str) -> [u8; 16] {
     v6(match c {
         "own" => "fd00::1",
+        "own2" => "fd00::2",
         "own-ll" => "fe80::1",
         "other" => "fd00::77",
         "all-nodes" => "ff02::1",
@@ -100,6 +102,33 @@ fn l4(p: &str, v: u8, src: &[u8], dst: &[u8]) -> (u8, Vec<u8>) {
             (if v == 4 { 1 } else { 58 }, m)
         }
         "udp-open" => (17, udp_datagram(5555, 7000, b"datagram-for-open-port")),
+        "udp-bound" => (17, udp_datagram(5555, 7002, b"datagram-for-bound-port")),
+        "syn-bound" => (6, tcp_seg(82, true, false, false)),
+        "ns" => {
+            // neighbour solicitation for the destination (or, to the solicited-node group, for the own address) with a source link-layer option
+            let mut m = vec![135u8, 0, 0, 0, 0, 0, 0, 0];
+            if dst[0] == 0xff {
+                m.extend_from_slice(&v6("fd00::1"));
+            } else {
+                m.extend_from_slice(dst);
+            }
+            m.extend_from_slice(&[1, 1]);
+            m.extend_from_slice(&PEER_MAC);
+            (58, m)
+        }
+        "mld-query" => {
+            // general query, maximum response delay 1 s
+            let mut m = vec![130u8, 0, 0, 0, 0x03, 0xe8, 0, 0];
+            m.extend_from_slice(&[0; 16]);
+            m.extend_from_slice(&[0, 0, 0, 0]);
+            (58, m)
+        }
+        "igmp-query" => {
+            let mut m = vec![0x11u8, 10, 0, 0, 0, 0, 0, 0];
+            let c = csum(&m);
+            m[2..4].copy_from_slice(&c.to_be_bytes());
+            (2, m)
+        }
         "udp-closed" => (17, udp_datagram(5555, 7001, b"datagram-for-closed-port")),
         "syn-open" => (6, tcp_seg(80, true, false, false)),
         "syn-closed" => (6, tcp_seg(81, true, false, false)),
@@ -123,7 +152,7 @@ fn classify(f: &[u8], medium_eth: bool) -> Value {
         f
     };
     let Some(ip) = parse_ip(ipb) else { return json!({"kind": "bad-ip"}) };
-    let own = [vec![10u8, 0, 0, 1], v6("fd00::1").to_vec(), v6("fe80::1").to_vec()];
+    let own = [vec![10u8, 0, 0, 1], vec![10u8, 0, 0, 2], v6("fd00::1").to_vec(), v6("fd00::2").to_vec(), v6("fe80::1").to_vec()];
     let src_own = own.iter().any(|a| *a == ip.src);
     let kind = match &ip.l4 {
         L4::Tcp(t) => {
@@ -188,6 +217,21 @@ pub fn replay(args: &Args) {
                 a.push(IpCidr::new(IpAddress::v6(0xfd00, 0, 0, 0, 0, 0, 0, 1), 64)).unwrap();
             });
         }
+        let pclass = r["p"].as_str().unwrap();
+        let two = dclass == "own2" || pclass.ends_with("-bound");
+        if two {
+            // two addresses of one family: the second one is foreign to sockets bound to the first
+            iface.update_ip_addrs(|a| {
+                a.clear();
+                if v == 4 {
+                    a.push(IpCidr::new(IpAddress::v4(10, 0, 0, 1), 24)).unwrap();
+                    a.push(IpCidr::new(IpAddress::v4(10, 0, 0, 2), 24)).unwrap();
+                } else {
+                    a.push(IpCidr::new(IpAddress::v6(0xfd00, 0, 0, 0, 0, 0, 0, 1), 64)).unwrap();
+                    a.push(IpCidr::new(IpAddress::v6(0xfd00, 0, 0, 0, 0, 0, 0, 2), 64)).unwrap();
+                }
+            });
+        }
         iface.routes_mut().add_default_ipv4_route(Ipv4Address::new(10, 0, 0, 254)).unwrap();
         let mut sockets = SocketSet::new(vec![]);
         let mut ts = tcp::Socket::new(tcp::SocketBuffer::new(vec![0u8; 512]), tcp::SocketBuffer::new(vec![0u8; 512]));
@@ -196,6 +240,14 @@ pub fn replay(args: &Args) {
         let mut us = udp::Socket::new(udp::PacketBuffer::new(vec![udp::PacketMetadata::EMPTY; 4], vec![0u8; 512]), udp::PacketBuffer::new(vec![udp::PacketMetadata::EMPTY; 4], vec![0u8; 512]));
         us.bind(7000).unwrap();
         let uh = sockets.add(us);
+        // sockets bound to the interface's first address (of the row's family) only
+        let first: IpAddress = if v == 4 { IpAddress::v4(10, 0, 0, 1) } else { IpAddress::v6(0xfd00, 0, 0, 0, 0, 0, 0, 1) };
+        let mut tb = tcp::Socket::new(tcp::SocketBuffer::new(vec![0u8; 512]), tcp::SocketBuffer::new(vec![0u8; 512]));
+        tb.listen((first, 82)).unwrap();
+        let tbh = sockets.add(tb);
+        let mut ub = udp::Socket::new(udp::PacketBuffer::new(vec![udp::PacketMetadata::EMPTY; 4], vec![0u8; 512]), udp::PacketBuffer::new(vec![udp::PacketMetadata::EMPTY; 4], vec![0u8; 512]));
+        ub.bind((first, 7002)).unwrap();
+        let ubh = sockets.add(ub);
         let mut now = 0i64;
         // teach the interface its neighbors so that replies are observable as such
         if eth {
@@ -221,6 +273,17 @@ pub fn replay(args: &Args) {
             let _ = guarded(|| iface.poll(Instant::from_millis(now), &mut dev, &mut sockets));
             dev.take_tx();
         }
+        if pclass == "igmp-query" {
+            let _ = iface.join_multicast_group(IpAddress::v4(224, 1, 2, 3));
+        } else if pclass == "mld-query" {
+            let _ = iface.join_multicast_group(IpAddress::v6(0xff05, 0, 0, 0, 0, 0, 0, 0x1234));
+        }
+        // start-up traffic (group reports for the addresses just configured) goes out before the row's packet
+        for dt in [0i64, 10, 2000] {
+            now += dt;
+            let _ = guarded(|| iface.poll(Instant::from_millis(now), &mut dev, &mut sockets));
+            dev.take_tx();
+        }
         now += 10;
         // the packet of this row
         let (src, dst): (Vec<u8>, Vec<u8>) = if v == 4 { (src4(r["s"].as_str().unwrap()).to_vec(), dst4(dclass).to_vec()) } else { (src6(r["s"].as_str().unwrap()).to_vec(), dst6(dclass).to_vec()) };
@@ -237,8 +300,15 @@ pub fn replay(args: &Args) {
             let mut d = [0u8; 16];
             s.copy_from_slice(&src);
             d.copy_from_slice(&dst);
-            ipv6_packet(s, d, proto, 64, &l4b, true)
+            ipv6_packet(s, d, proto, match pclass { "ns" => 255, "mld-query" => 1, _ => 64 }, &l4b, true)
         };
+        if pclass == "igmp-query" {
+            ipb[8] = 1; // TTL 1
+            ipb[10] = 0;
+            ipb[11] = 0;
+            let c = csum(&ipb[..20]);
+            ipb[10..12].copy_from_slice(&c.to_be_bytes());
+        }
         let hl = if v == 4 { 20 } else { 40 };
         match corrupt {
             "ip-hdr" => ipb[8] ^= 0x10,                         // TTL bit: header checksum no longer verifies
@@ -269,22 +339,33 @@ pub fn replay(args: &Args) {
         } else {
             ipb
         };
-        let tcpb = state_name(sockets.get::<tcp::Socket>(th).state());
+        let tcpb = format!("{}/{}", state_name(sockets.get::<tcp::Socket>(th).state()), state_name(sockets.get::<tcp::Socket>(tbh).state()));
         dev.rx.push_back(frame);
         let res = guarded(|| {
             iface.poll(Instant::from_millis(now), &mut dev, &mut sockets);
+            if matches!(pclass, "mld-query" | "igmp-query") {
+                // the report is sent after a delay of up to the maximum response time
+                for dt in [100i64, 400, 600, 1000, 9000] {
+                    now += dt;
+                    iface.poll(Instant::from_millis(now), &mut dev, &mut sockets);
+                }
+            }
         });
         let out = dev.take_tx();
         if let Err(m) = res {
             t.ev(json!({"ev":"panic","row":r,"msg":m}));
             continue;
         }
-        let tcpa = state_name(sockets.get::<tcp::Socket>(th).state());
+        let tcpa = format!("{}/{}", state_name(sockets.get::<tcp::Socket>(th).state()), state_name(sockets.get::<tcp::Socket>(tbh).state()));
         let mut udp_n = 0;
         let mut udp_ok = true;
         while let Ok((d, _m)) = sockets.get_mut::<udp::Socket>(uh).recv() {
             udp_n += 1;
             udp_ok &= d == b"datagram-for-open-port";
+        }
+        while let Ok((d, _m)) = sockets.get_mut::<udp::Socket>(ubh).recv() {
+            udp_n += 1;
+            udp_ok &= d == b"datagram-for-bound-port" && pclass == "udp-bound";
         }
         let outs: Vec<Value> = out.iter().map(|o| classify(o, eth)).collect();
         let mut e = json!({"ev":"row","k":k,"udp":udp_n,"udp_ok":udp_ok,"tcpb":tcpb,"tcpa":tcpa,"out":outs});
